@@ -6,6 +6,9 @@ code->spec random walk: oracle mode (Oracle_C18: TLC emits K and Pi as exact rat
            discrete clauses about sampled walks); contagion: trace validation (Trace_C18: the returned
            vector and, with the hook, every sweep as ONE Sweep step from the previous infected set)
 
+A quarter of the random-walk hypergraphs and a fifth of the contagion runs are reached by EDITING an object on which the
+functions have already been called (per-object memoisation); starting densities are float- or integer-typed.
+
 Every executed case is described by a small JSON `spec` (hypergraph, labels, arguments, seeds) from
 which it can be re-executed exactly: that is the replay payload.
 """
